@@ -9,7 +9,7 @@
 // CEQ_TREE_VERSION *and* the version comment at the top of each including .cpp.
 #ifndef VERIF_CEQ_TREE_H
 #define VERIF_CEQ_TREE_H
-#define CEQ_TREE_VERSION 3
+#define CEQ_TREE_VERSION 4
 #include "Simbody.h"
 #include "hcommon.h"
 #include <memory>
@@ -256,7 +256,7 @@ struct ConsInfo {
 };
 
 inline void pushV(std::vector<double>& p, const Vec3& v) { for (int i = 0; i < 3; ++i) p.push_back(v[i]); }
-inline void pushR(std::vector<double>& p, const Rotation& R) { for (int i = 0; i < 3; ++i) for (int j = 0; j < 3; ++j) p.push_back(R(i, j)); }
+inline void pushR(std::vector<double>& p, const Rotation& R) { for (int i = 0; i < 3; ++i) for (int j = 0; j < 3; ++j) p.push_back(R.asMat33()(i, j)); }
 inline void pushX(std::vector<double>& p, const Transform& X) { pushR(p, X.R()); pushV(p, X.p()); }
 
 // nq of a mobilizer type under the default (quaternion) modelling; used only for choosing coordinate indices < nq_min
@@ -369,7 +369,7 @@ inline void finishTopology(Model& M, vh::Rng& g, bool allowEuler = true) {
     M.system.realizeModel(M.state);
 }
 
-inline double maxAbs(const Vector& v) { double m = 0; for (int i = 0; i < v.size(); ++i) m = std::max(m, std::abs(v[i])); return m; }
+inline double maxAbs(const Vector& v) { double m = 0; for (int i = 0; i < v.size(); ++i) { double a = std::abs(v[i]); if (!(a <= m)) m = a; } return m; } // NaN propagates
 inline Vector rvector(vh::Rng& g, int n, double a = 1.0) { Vector v(n); for (int i = 0; i < n; ++i) v[i] = g.range(-a, a); return v; }
 
 } // namespace ceq
